@@ -187,7 +187,7 @@ Proof.
     destruct (reads_tok [40] w1 false Hw1 _ ln2 ac N2) as [ln3 E3]. rewrite <- !app_assoc in E3. cbn [app] in E3. change t_lpar with [40]. rewrite E3.
     destruct (r_args_loop args ((c :: r) ++ [40]) (S (length (ta ++ 41 :: w2 ++ tail))) ta Hargs Ga
                ltac:(pose proof (G_args_len args ta Ga); rewrite app_length; lia) (41 :: w2 ++ tail) ln3 ([] ++ ac) eq_refl) as [ln4 E4].
-    cbn [app] in E4. cbn [app]. rewrite E4.
+    cbn [app] in E4. cbn [app str rest]. rewrite E4.
     destruct (reads_tok [41] w2 true Hw2 tail ln4 ([] ++ [] ++ ac) (pun_nws _ Hp)) as [ln5 E5]. rewrite <- !app_assoc in E5. change t_rpar with [41]. cbn [app] in E5. cbn [app]. rewrite E5.
     unfold ret at 1. unfold skipws, on_str. cbn [str acc]. rewrite a_skipws_nws by now apply pun_nws.
     eexists. unfold ret. f_equal. rewrite <- !app_assoc. reflexivity.
